@@ -3,6 +3,8 @@
 use crate::engine::Ctx;
 use serde_json::Value;
 
+pub mod node_level;
+
 pub const LEVEL: &str = "exploration";
 
 macro_rules! props {
@@ -48,6 +50,8 @@ fn regress(id: &str, ctx: &Ctx, f: fn(&Ctx, &Value)) {
 }
 
 props! {
+    "C11" => c11,
+    "C12" => c12,
     "C16" => c16,
     "C17" => c17,
     "C18" => c18,
